@@ -169,7 +169,15 @@ class C02(Check):
                 gf = tuple(golden["final"])
             mine = oracles.final_outcome(ix.w)
             if mine[0] in ("SUCCEEDED", "FAILED") and gf[0] in ("SUCCEEDED", "FAILED") and tuple(mine) != tuple(gf):
-                vs.append(oracles.V("C02", "final-outcome-changed", f"fault-free run ended {str(gf)[:200]} but with faults "
+                cls = "final-outcome-changed"
+                try:
+                    import json as _json
+                    if mine[0] == gf[0] == "SUCCEEDED" and oracles.normalise_wfcond_caught(_json.loads(mine[1])) == \
+                            oracles.normalise_wfcond_caught(_json.loads(gf[1])):
+                        cls = "final-outcome-changed-wfcond-exception-class"
+                except (TypeError, ValueError):
+                    pass
+                vs.append(oracles.V("C02", cls, f"fault-free run ended {str(gf)[:200]} but with faults "
                                     f"{cfg['faults']} it ended {str(mine)[:200]}"))
         return vs
 
@@ -933,7 +941,7 @@ class C16(Check):
                 if rng.random() < 0.2:
                     brs.append({"body": [{"op": "raise", "cls": "ValueError", "msg": "bad"}]})
                 else:
-                    brs.append({"body": [{"op": "step"}], "ret": ["big", max(1, per + rng.choice([-80, -10, 0, 10, 200]))]})
+                    brs.append({"body": [{"op": "step"}], "ret": ["big", max(1, rng.choice([per - 80, per - 10, per, per + 10, per + 200, ck + 5, 2 * ck]))]})
             c = {"tol": n}
             if rng.random() < 0.5:
                 c["summary"] = True
